@@ -1794,3 +1794,75 @@ func c05EmptyStream() {
 
 func VerifC05EmptyStream() { c05EmptyStream() }
 func VerifC06EmptyStream() { c05Mode = 6; c05EmptyStream() }
+
+// A pending input that is a nil interface value (an any-typed node answered "nothing"), interrupted before its
+// consumer and resumed, in every mix of Invoke and Stream: the consumer receives nil, as in the uninterrupted run.
+func c05NilPending() {
+	ctx := context.Background()
+	vcfg("fifo", 1)
+	vcfg("selectfirst", 1)
+	isNil := vchoose("nil", 2) == 1
+	build := func(store CheckPointStore) (Runnable[string, string], error) {
+		g := NewGraph[string, string]()
+		_ = g.AddLambdaNode("a", InvokableLambda(func(ctx context.Context, in string) (any, error) {
+			if isNil {
+				return nil, nil
+			}
+			return in, nil
+		}))
+		_ = g.AddLambdaNode("b", InvokableLambda(func(ctx context.Context, in any) (string, error) {
+			if in == nil {
+				return "nil", nil
+			}
+			return "non-nil", nil
+		}))
+		_ = g.AddEdge(START, "a")
+		_ = g.AddEdge("a", "b")
+		_ = g.AddEdge("b", END)
+		if store != nil {
+			return g.Compile(ctx, WithCheckPointStore(store), WithInterruptBeforeNodes([]string{"b"}))
+		}
+		return g.Compile(ctx)
+	}
+	call := func(r Runnable[string, string], stream bool, opts ...Option) (string, error) {
+		if !stream {
+			return r.Invoke(ctx, "x", opts...)
+		}
+		sr, err := r.Stream(ctx, "x", opts...)
+		if err != nil {
+			return "", err
+		}
+		defer sr.Close()
+		out := ""
+		for i := 0; i < 8; i++ {
+			c, err := sr.Recv()
+			if err == io.EOF {
+				break
+			}
+			if err != nil {
+				return "", err
+			}
+			out += c
+		}
+		return out, nil
+	}
+	ru, err := build(nil)
+	vassert(err == nil, "twin compiles")
+	want, werr := call(ru, vchoose("twinStream", 2) == 1)
+	vassert(werr == nil, "uninterrupted run succeeds")
+	store := &vStore{m: map[string][]byte{}}
+	ri, err := build(store)
+	vassert(err == nil, "graph compiles")
+	_, e1 := call(ri, vchoose("firstStream", 2) == 1, WithCheckPointID("cp"))
+	_, ok := ExtractInterruptInfo(e1)
+	vassert(ok, "nil pending: the run is interrupted before the consumer")
+	if !ok {
+		return
+	}
+	out, e2 := call(ri, vchoose("secondStream", 2) == 1, WithCheckPointID("cp"))
+	a5(e2 == nil, "nil pending: the resumed run completes")
+	a5(out == want, "nil pending: the consumer receives what it receives uninterrupted (nil stays nil)")
+}
+
+func VerifC05NilPending() { c05NilPending() }
+func VerifC06NilPending() { c05Mode = 6; c05NilPending() }
